@@ -1,5 +1,6 @@
 import CV.Drv.Util
 import CV.Model.Session
+import CV.Model.SessionCookie
 /-
 Line protocol of the C20 session model (`cvdriver session`).
 
@@ -8,6 +9,9 @@ Line protocol of the C20 session model (`cvdriver session`).
   rec  <ip> <agent> <cookie|~> <sid> get|put <k> <v>|expire | <k,v>*
         -> ok                        (an observed request of the implementation)
   spec  -> ok | fail <clause>        (the statement on the recorded implementation trace)
+  stepj <name> <ip> <agent> <jar> <uuid> <W(ip+agent)|~> get | put <k> <v> | expire
+        -> <sid> | <k,v>* | <jar>    (`stepJ`: Sessions(name) on a request whose parsed cookie jar is <jar> = n,v;n,v… | =;
+                                      the last part is response.cookie afterwards, one Set-Cookie line per entry)
 -/
 namespace CV.Drv.C20
 open CV.Drv CV.Session
@@ -28,6 +32,12 @@ def spair? (t : String) : Option (Str × Str) :=
     let b ← sstr? b
     pure (a, b)
   | _ => none
+
+def sjar? (t : String) : Option Jar :=
+  if t == "=" then some [] else (t.splitOn ";").mapM spair?
+
+def sshowJar (j : Jar) : String :=
+  if j.isEmpty then "=" else ";".intercalate (j.map (fun e => s!"{sshow e.1},{sshow e.2}"))
 
 def act? : List String → Option Act
   | ["get"] => some .get
@@ -60,6 +70,17 @@ def sessStep (s : SessSt) : List String → SessSt × String
     | some ip, some agent, some cookie, some sid, some act, some seen =>
       ({ s with recs := s.recs ++ [⟨ip, agent, cookie, sid, seen, act⟩] }, "ok")
     | _, _, _, _, _, _ => (s, "bad-op")
+  | "stepj" :: name :: ip :: agent :: jar :: u :: w :: act =>
+    match sstr? name, sstr? ip, sstr? agent, sjar? jar, sstr? u, soptStr? w, act? act with
+    | some name, some ip, some agent, some jar, some u, some w, some act =>
+      match w with
+      | none => (s, "w-miss")
+      | some w =>
+        let W : Str → Str := fun x => if x = ip ++ agent then w else '?' :: x
+        let (st', o) := stepJ W name s.store ⟨⟨ip, agent, jar⟩, u, act⟩
+        ({ s with store := st' },
+         s!"{sshow o.sid} | {" ".intercalate (o.contents.map (fun e => s!"{sshow e.key},{sshow e.val}"))} | {sshowJar o.setCookie}")
+    | _, _, _, _, _, _, _ => (s, "bad-op")
   | ["spec"] =>
     match traceOk [] s.recs with
     | none => (s, "ok")
